@@ -66,10 +66,17 @@ def run(ctx):
              "pairs; depth 2-3 nestings) x scenarios {identity, registered function echo, registered constant, context "
              "field in 3 manual + 3 derived field orders, script-side construction/matching/?/accept/reject, registered "
              "methods (sized and zero-sized receiver, static), list get/for, every argument position of arities 2/4/7 in "
-             "both directions directly and behind a script-to-script call, narrow-int arithmetic handed to Rust, library!-registered function/closure/method/constants} x edge "
+             "both directions directly and behind a script-to-script call, narrow-int arithmetic handed to Rust, library!-registered function/closure/method/constants, "
+             "read sites (the same constant / context field / argument read at 13 control-flow positions x selector-chosen "
+             "paths, every emitted and returned value compared), private copies (a local bound to a boundary read assigned "
+             "to in 13 shapes + a record constant holding a registered constant; host struct and constant compared "
+             "afterwards, also through a second package)} with class representatives (20 type families x every shape x "
+             "every source, fixed seed) first x edge "
              "values then random values; plus the model facts (layout, payload offsets, discriminant bytes at predicted "
              "offsets of real values, Lowerer::location offsets, lowered and runtime-call signatures) on the family, on "
-             "300/3000 random deeper types and 400/6000 random multi-parameter signatures against the Lean driver; a class "
+             "300/3000 random deeper types and 400/6000 random multi-parameter signatures against the Lean driver; the real LIR "
+             "(hook mem_ops) of the 632 generated read-site / private-copy programs against Func.check (provenance) and "
+             "Cfg.check (definite assignment) in the driver; a class "
              "is distinct by (scenario, position, size/align class signature of the type) with every round agreeing",
         search=search,
     )
